@@ -652,11 +652,16 @@ struct Harness
                     ++fault_runs;
                     armed_k = k;
                     armed_from = from != 0;
+                    // the explored state abstracts from the byte after the content; here it is the NUL every terminating operation leaves there
+                    if (L.s->ptr_ && L.s->num_ < L.s->mem_) { L.s->ptr_[L.s->num_] = 0; }
+                    bool was_term = is_term(L.s);
                     shim::arm(k, from != 0);
                     bool reported = call_expect_failure(L, o);
                     shim::disarm();
                     std::string why = std::string("allocation request #") + std::to_string(k) + (from ? " and all later ones fail" : " fails") + " during " + op_str(o) + " on " + key_str(key) + ": ";
                     if (!reported) { ck.fail("failure-not-reported", "the operation did not report the failure through its return value"); }
+                    // a string that was NUL-terminated stays so: the byte directly after the content is what a_str_ptr() readers stop at
+                    if (ck.ok() && was_term && !is_term(L.s)) { ck.fail("terminator-lost", "the failed operation left the byte directly after the content non-NUL: the string reads longer than it is"); }
                     if (ck.ok())
                     {
                         L.m = before;
